@@ -117,7 +117,7 @@ def release(F, R, d):
                 if final:
                     # the remove either precedes the construction of the ack on every path, or follows it on every path to a return
                     # (ack value built first and handed to the step that forgets the id)
-                    ok = b.must_pass(rms, bi) or (bool(rms) and not (set(b.returns()) & b.reachable(bi, avoid=rms)))
+                    ok = b.must_pass(rms, bi) or (bool(rms) and not (set(b.returns()) & b.reachable(bi, avoid=rms))) or (bool(rms) and b.must_pass_corr(rms, bi))
                     R.ob('C11.release', '%s|%s|%s|paired-remove' % (d.name, top(b), var), ok,
                          'a final acknowledgement (%s) is produced on a path that never removed the packet id from the in-flight set' % var, b.loc(bi))
                 else:
